@@ -244,13 +244,20 @@ func parseContractFile(path, pkg string) (*ContractFile, error) {
 			cf.Monitors = append(cf.Monitors, m)
 			curMon, mode = m, "monitor"
 		case "structinv":
-			rn, rt, _, err := parseRecv(it.text)
+			rn, rt, rest, err := parseRecv(it.text)
 			if err != nil {
 				return nil, fmt.Errorf("%s:%d: %v", path, it.line, err)
 			}
 			curInv = &StructInv{RecvName: rn, RecvType: rt}
 			cf.Invs = append(cf.Invs, curInv)
 			mode = "structinv"
+			if strings.TrimSpace(rest) != "" {
+				c, err := mkClause("inv", rest, it.line)
+				if err != nil {
+					return nil, err
+				}
+				curInv.Clauses = append(curInv.Clauses, c)
+			}
 		case "lemma":
 			name, rest := splitWord(it.text)
 			curLemma = &Lemma{Name: name, Line: it.line, File: path}
